@@ -563,3 +563,38 @@ def check_C12(tier, seed, rest):
     if ex.get("modes"):
         cov["states"] += ex["modes"]["distinct"]
     finish("C12", tier, seed, "model_checking", cov, v, t0, ASSUME_B)
+
+
+# ------------------------------------------------------------------------------------------
+# API engine
+
+API_CFGS = ["tc", "tc_safe", "sm", "tc_rel", "tc_safe_rel"]
+
+
+def api_violation(f):
+    return {"key": "%s:%s:%s:%s:%s" % (f["pair"], f["kind"], f["input"], "p" if f["partial"] else "f", f["script"]),
+            "what": "%s: pair %s input=%s partial=%s script=%s: %s (cfg %s)" % (f["kind"], f["pair"], f["input"], f["partial"], f["script"], f["why"], f["cfg"]),
+            "expected": f["expected"], "got": f["got"], "cfg": f["cfg"], "script": f["script"], "input_hex": f["input"]}
+
+
+def api_coverage(r):
+    return {"states": r["tlc"]["distinct"], "transitions": r["tlc"]["states"], "traces_validated_against_impl": r["runs"],
+            "samples": r["samples"], "histories": r["histories"], "configurations": r["cfgs"], "max_input_chars": r["maxlen"], "max_ops": r["maxops"],
+            "rule": "LexerAPI.tla: every reachable state of two lexer slots (A/B token types, spanned or not) over every input of at most max_input_chars characters and every history of at most max_ops operations "
+                    "from {next, bump(n) for every n up to len+2 and usize::MAX-1, usize::MAX, clone, morph, spanned}; one replayed history per distinct state x enabled operation, on debug and release, default and forbid_unsafe builds"}
+
+
+def check_C14(tier, seed, rest):
+    t0 = time.time()
+    from api import api_run
+    r = api_run("api", tier, seed, API_CFGS)
+    v = [api_violation(f) for f in r["findings"] if f["kind"] == "api"]
+    finish("C14", tier, seed, "model_checking", api_coverage(r), v, t0, ["pairs of definitions are the three hand-written pairs of lib/api.py (str, str with multi-byte characters, bytes)", "reference lexer as in C01"])
+
+
+def check_C15(tier, seed, rest):
+    t0 = time.time()
+    from api import api_run
+    r = api_run("api", tier, seed, API_CFGS)
+    v = [api_violation(f) for f in r["findings"] if f["kind"] == "bump"]
+    finish("C15", tier, seed, "model_checking", api_coverage(r), v, t0, ["usize::MAX-1 and usize::MAX stand for all values whose addition overflows", "after a caught panic the specification requires the lexer to be unchanged"])
